@@ -7,8 +7,15 @@ for f in sorted(glob.glob('/verif/seeded/*/*/meta.json')):
     c = m.get('confirmed', {}); k = m.get('check', {})
     ok = c.get('demo_exit_clean_tree') == 0 and c.get('demo_exit_patched_tree') not in (0, None) \
         and 'missing []' in str(c.get('full_suite_on_patched_tree', ''))
-    rows.append((m['property'], m['slug'], 'yes' if ok else 'NO', 'DETECTED' if k.get('detected') else 'missed',
-                 (k.get('output') or [''])[0][:70]))
+    r = m.get('recheck')
+    if k.get('detected'):
+        verdict = 'DETECTED'
+    elif r and r.get('detected'):
+        verdict = 'detected-after'
+    else:
+        verdict = 'missed'
+    outl = [l for l in ((r or k).get('output') or k.get('output') or ['']) if l.startswith('VIOLATION')] or ['']
+    rows.append((m['property'], m['slug'], 'yes' if ok else 'NO', verdict, outl[0][:90]))
 print('| property | seeded change | confirmed | check | first line |\n|---|---|---|---|---|')
 for r in rows:
     print('| ' + ' | '.join(r) + ' |')
